@@ -1066,14 +1066,20 @@ func run(r *vrt.Run) {
 			}
 		})
 	})
-	r.Require("worlds_hash", 2)
-	r.Require("worlds_path", 2)
-	r.Require("req_account_range", 500)
-	r.Require("req_storage_ranges", 500)
-	r.Require("req_byte_codes", 100)
-	r.Require("req_trie_nodes", 300)
-	r.Require("range_proofs_verified", 800)
-	r.Require("zero_element_proofs", 5)
+	need := func(name string, min int64) { // coverage obligations, scaled down for the (smaller) race workload
+		if r.Race() {
+			min = max(1, min/3)
+		}
+		r.Require(name, min)
+	}
+	need("worlds_hash", 2)
+	need("worlds_path", 2)
+	need("req_account_range", 500)
+	need("req_storage_ranges", 500)
+	need("req_byte_codes", 100)
+	need("req_trie_nodes", 300)
+	need("range_proofs_verified", 800)
+	need("zero_element_proofs", 5)
 	r.Assume("ground truth from lib/flatstate + lib/refmpt, validated per world against the chain's block roots; block reward model (2 ETH to the coinbase, TestChainConfig/ethash) validated the same way")
 	r.Assume("the client-side verifier trie.VerifyRangeProof is used as an oracle component (its own reliability is property C09)")
 }
